@@ -229,7 +229,7 @@ def solve_milp(
         counter += 1
 
     if best_solution is None:
-        status = Status.MAX_ITER if lp_limit_hit else Status.INFEASIBLE
+        status = Status.MAX_ITER if lp_limit_hit or tree else Status.INFEASIBLE  # open nodes left: not a proof
         return Result(None, float("inf") if minimize else float("-inf"), nodes_explored, total_iters, status)
 
     status = Status.OPTIMAL if not tree and not lp_limit_hit else Status.FEASIBLE
